@@ -18,7 +18,9 @@ Case(ext) == [spec |-> "Symbolic", kind |-> "dag", ext |-> ext, nodes |-> [i \in
 Airs == {"fibonacci", "mul_deg2", "mul_deg3", "const_d1", "const_d4", "public_d1_l1", "public_d1_l4", "public_d4_l2",
          "alu_d1_l1", "alu_d1_l2_k3", "alu_d1_l4", "alu_d4_l1", "alu_d4_l2_k3", "recompose_d4", "recompose_d4_coeff_lookups",
          "circuit_tables_d1", "circuit_tables_d4", "poseidon2_bb_d4_w16", "poseidon2_bb_d1_w16",
-         "harness_periodic", "harness_lookups", "harness_order_bbee", "harness_order_ebeb", "harness_order_eb"}
+         "harness_periodic", "harness_lookups", "harness_order_bbee", "harness_order_ebeb", "harness_order_eb",
+         \* extension constraints that are lifted base expressions (several per AIR: they share the base-expression cache)
+         "harness_order_ll", "harness_order_lbl", "harness_order_lell"}
 EmitAirs == (phase = "build" /\ dag = <<>>) => \A a \in Airs : PrintT(<<"REPLAY", ToJson([spec |-> "Symbolic", kind |-> "air", air |-> a])>>)
 Emit == phase = "done" => \A e \in BOOLEAN : PrintT(<<"REPLAY", ToJson(Case(e))>>)
 =============================================================================
